@@ -62,7 +62,7 @@ NoU == [kind |-> "none", chart |-> "none", replace |-> FALSE, atomic |-> FALSE, 
 NoOp == [u |-> NoU,
          keep |-> FALSE, nohooks |-> FALSE, ver |-> 0, lim |-> 0, cleanup |-> FALSE,
          new |-> 0, orig |-> 0, tgt |-> 0, newrec |-> NoRec, origRec |-> NoRec, tgtRec |-> NoRec, lastRev |-> 0, lastSt |-> "",
-         curman |-> <<>>, tgtman |-> <<>>, hdefs |-> <<>>, adopted |-> {}, k3 |-> FALSE,
+         curman |-> <<>>, tgtman |-> <<>>, hdefs |-> <<>>, adopted |-> {}, k3 |-> FALSE, snap |-> Absent,
          todo |-> {}, tseq |-> <<>>, dseq |-> <<>>, hrevs |-> {},
          created |-> {}, posted |-> {}, crs |-> {}, log |-> <<>>, uerr |-> FALSE, errs |-> FALSE,
          memSt |-> "", origSt |-> "",
@@ -472,19 +472,19 @@ K_Get2(p) ==
          o6 == [o EXCEPT !.kf = IF ~Typed(o.tgtman[r].kind) /\ ~o.k3 THEN @ \cup {"L6"} ELSE @]
          errT == KNext([o EXCEPT !.uerr = TRUE]) IN
      IF ~Present(r)
-     THEN ResCall(p, "GET", r, FALSE, cluster, [pc |-> "K_Patch", op |-> o], errT)
+     THEN ResCall(p, "GET", r, FALSE, cluster, [pc |-> "K_Patch", op |-> [o EXCEPT !.snap = Absent]], errT)
      ELSE ResCall(p, "GET", r, TRUE, cluster,
-                  [pc |-> IF empty THEN "K_Refresh" ELSE "K_Patch", op |-> o6], errT)
+                  [pc |-> IF empty THEN "K_Refresh" ELSE "K_Patch", op |-> [o6 EXCEPT !.snap = IF empty THEN Absent ELSE cluster[r]]], errT)
 
 K_Patch(p) ==
   /\ pc[p] = "K_Patch" /\ Budgets
   /\ LET o == op[p]  r == Head(o.tseq)
-         errT == KNext([o EXCEPT !.uerr = TRUE]) IN
+         errT == KNext([o EXCEPT !.uerr = TRUE, !.snap = Absent]) IN
      IF ~Present(r)
      THEN ResCall(p, "PATCH", r, FALSE, cluster, errT, errT)
      ELSE ResCall(p, "PATCH", r, TRUE,
-                  [cluster EXCEPT ![r] = Patched(o.curman[r], o.tgtman[r], cluster[r], r \in o.adopted, o.k3)],
-                  KNext(o), errT)
+                  [cluster EXCEPT ![r] = PatchedOn(o.curman[r], o.tgtman[r], o.snap, cluster[r], r \in o.adopted, o.k3)],
+                  KNext([o EXCEPT !.snap = Absent]), errT)
 
 K_Refresh(p) ==
   /\ pc[p] = "K_Refresh" /\ Budgets
